@@ -21,7 +21,8 @@ PID = 'C05'
 FAM = {s.sid: s for s in S.family_F()}
 FAM['A1'] = apibfs.A1
 FAM['S5'] = Schema('S5', [Opt('str', 's', '', b'd'), Opt('str', 'sl', 'L', [b'a']), Opt('int', 'i', '', 5), Opt('float', 'f', '', 1.5), Opt('bool', 'b', '', True),
-                          Opt('sec', 'mt', 'MT', sub=[Opt('str', 'v', '', b'x'), Opt('int', 'l', 'L', [b'1'])]), Opt('sec', 'sec', '', sub=[Opt('str', 'w', '', b'y')])])
+                          Opt('sec', 'mt', 'MT', sub=[Opt('str', 'v', '', b'x'), Opt('int', 'l', 'L', [b'1'])]), Opt('sec', 'sec', '', sub=[Opt('str', 'w', '', b'y')]),
+                          Opt('sec', 'kv', 'K', sub=[Opt('str', 'k0', '', b'v0')])])      # kv: free-form, its keys come from the text
 PRINTABLE = ['F01', 'F02', 'F03', 'F04', 'F05', 'F06', 'F07', 'F09', 'F10', 'F11', 'F15', 'F16', 'F18']
 META = [b'a', b'"', b'\\', b'$', b'{', b'}', b'\n', b'\r', b'\t', b'#', b'/', b'*', b"'", b' ', b',', b'=', b'\x01', b'\x7f', b'\x80', b'\xff']
 CM = CFGF['COMMENTS']
@@ -137,6 +138,10 @@ def place(pos, val):
         return ['addtsec A %s %s' % (enc(b'mt'), enc(b'plain')), 'addtsec A %s %s' % (enc(b'mt'), enc(val)), 'addtsec A %s %s' % (enc(b'mt'), enc(b'zz'))]
     if pos == 'nested':
         return ['addtsec A %s %s' % (enc(b'mt'), enc(b't')), 'setstr A %s %s' % (enc(b'mt=t|v'), enc(val)), 'setstr A %s %s' % (enc(b'sec|w'), enc(val))]
+    if pos == 'key':
+        # the byte string as a key of the free-form section (written as a double-quoted literal)
+        lit = b'"' + val.replace(b'\\', b'\\\\').replace(b'"', b'\\"').replace(b'$', b'\\$') + b'"'
+        return ['parse_buf A ' + enc(b'kv { ' + lit + b' = v1 second = v2 }')]
     if pos == 'annotation':
         return ['setcomment A %s %s' % (enc(b's'), enc(val)), 'setcomment A %s %s' % (enc(b'sl'), enc(val))]
     raise ValueError(pos)
@@ -199,15 +204,15 @@ def main():
     engine.build(['asan'])
     quick = ck.tier == 'quick'
     dl = ck.deadline
-    positions = ['scalar', 'list', 'title', 'nested', 'annotation']
+    positions = ['scalar', 'list', 'title', 'nested', 'annotation', 'key']
     singles = [bytes([b]) for b in range(1, 256)]
-    engine.phase(ck, 'all 255 single bytes at 5 positions', shard_strings, [(positions, list(ch), dl) for ch in engine.chunks(singles, 8)], values=255)
+    engine.phase(ck, 'all 255 single bytes at 6 positions', shard_strings, [(positions, list(ch), dl) for ch in engine.chunks(singles, 8)], values=255)
     L = 3 if quick else 4
     strs = []
     for n in range(2, L + 1):
         strs += [b''.join(t) for t in itertools.product(META, repeat=n)]
     strs += [b'${HOME}', b'a${HOME}b', b'${X:-d}', b'$' + b'{', b'\\"', b'"\\', b'/*', b'*/', b'x*/y', b'a\n*/\nb', b'//', b'# c', b'', b' lead', b'trail ', b'\\n', b"it's", b'ti"tle']
-    engine.phase(ck, 'all strings of length 2..%d over %d meta characters at 5 positions' % (L, len(META)), shard_strings,
+    engine.phase(ck, 'all strings of length 2..%d over %d meta characters at 6 positions' % (L, len(META)), shard_strings,
                  [(positions, list(ch), dl) for ch in engine.chunks(strs, 12 if quick else 200)], values=len(strs))
     engine.phase(ck, 'boundary numbers, negative zero, empty lists / strings / titles', shard_numbers, [dl])
     N = 6 if quick else 8
